@@ -335,6 +335,33 @@ class Exec:
         if name in s.gobj: return bv(s.gobj[name])
         if name not in s.gaddr: s.gaddr[name] = 0x7f0000000000 + 0x1000 * len(s.gaddr)
         return bv(s.gaddr[name])
+    def install_globals(s, st):
+        """Every global variable the module DEFINES becomes an object: 'const' for constants, 'global' for mutable ones (a
+        store to - or, for C18, a load from - a mutable global shows up in the access log). Contents: zeroinitializer / scalar
+        integers / c\"...\" strings are exact, everything else is left as unconstrained bytes."""
+        s.mutable_globals = []
+        for name, ln in s.M.globals.items():
+            m = re.match(r'^\S+ = (.*?)\b(global|constant) (.*)$', ln)
+            if not m or 'external' in m.group(1).split(): continue
+            rest = m.group(3)
+            try:
+                p = P(tokenize(rest)); ty = parse_type(p); size = ty.size(s.M)
+            except Exception:
+                continue
+            kind = 'const' if m.group(2) == 'constant' else 'global'
+            o = st.alloc(max(size, 1), 'global' + name.replace('@', '_'), kind); s.gobj[name] = o.base
+            if kind == 'global': s.mutable_globals.append(name)
+            init = rest[rest.index(' ') + 1:] if ' ' in rest else ''
+            tok = p.peek()
+            if tok == 'zeroinitializer' or (tok is not None and re.fullmatch(r'-?\d+', tok) and size <= 8):
+                val = 0 if tok == 'zeroinitializer' else int(tok)
+                for k in range(size): o.arr = z3.Store(o.arr, bv(k), bv((val >> (8 * k)) & 0xff if k < 8 else 0, 8))
+            elif tok is not None and tok.startswith('c"'):
+                raw = tok[2:-1]; bs = []; i = 0
+                while i < len(raw):
+                    if raw[i] == '\\': bs.append(int(raw[i + 1:i + 3], 16)); i += 3
+                    else: bs.append(ord(raw[i])); i += 1
+                for k, b in enumerate(bs[:size]): o.arr = z3.Store(o.arr, bv(k), bv(b, 8))
     # ---- run
     def run(s, fname, args, st):
         s.ctr = itertools.count()
@@ -499,6 +526,14 @@ class Exec:
                 while p.peek() in ('fast', 'nnan', 'ninf', 'nsz', 'contract', 'reassoc', 'arcp', 'afn'): p.next()
                 ty = parse_type(p); a = s.operand(p, ty, env); p.expect(','); b = s.operand(p, ty, env)
                 env[dst] = z3.Function('uf_' + op, z3.BitVecSort(64), z3.BitVecSort(64), z3.BitVecSort(64))(a, b)
+            elif op in ('uitofp', 'sitofp', 'fptoui', 'fptosi', 'fpext', 'fptrunc'):
+                # conversions are uninterpreted: the engine decides addresses and control flow, not floating-point values
+                ty = parse_type(p); a = s.operand(p, ty, env); p.expect('to'); ty2 = parse_type(p)
+                env[dst] = z3.Function('uf_%s_%d_%d' % (op, a.size(), s.bits(ty2)), z3.BitVecSort(a.size()), z3.BitVecSort(s.bits(ty2)))(a)
+            elif op == 'fneg':
+                while p.peek() in ('fast', 'nnan', 'ninf', 'nsz', 'contract', 'reassoc', 'arcp', 'afn'): p.next()
+                ty = parse_type(p); a = s.operand(p, ty, env)
+                env[dst] = z3.simplify(a ^ bv(1 << (a.size() - 1), a.size()))
             elif op == 'landingpad':
                 env[dst] = None
             elif op == 'resume':
@@ -570,3 +605,27 @@ def sum_memmove(ex, args, st):
     yield Outcome('ret', None, st)
 SUMMARIES['@llvm.memmove.p0i8.p0i8.i64'] = sum_memmove
 SUMMARIES['@llvm.memcpy.p0i8.p0i8.i64'] = sum_memmove
+
+def sum_umax(ex, args, st): yield Outcome('ret', z3.simplify(z3.If(z3.UGT(args[0], args[1]), args[0], args[1])), st)
+def sum_umin(ex, args, st): yield Outcome('ret', z3.simplify(z3.If(z3.ULT(args[0], args[1]), args[0], args[1])), st)
+SUMMARIES['@llvm.umax.i64'] = sum_umax; SUMMARIES['@llvm.umin.i64'] = sum_umin
+def sum_std_throw(what):
+    def f(ex, args, st): yield Outcome('throw', (what, None), st)
+    return f
+for _n, _w in (('@_ZSt17__throw_bad_allocv', 'std::bad_alloc'), ('@_ZSt19__throw_logic_errorPKc', 'std::logic_error'), ('@_ZSt28__throw_bad_array_new_lengthv', 'std::bad_array_new_length'),
+               ('@_ZSt24__throw_out_of_range_fmtPKcz', 'std::out_of_range'), ('@_ZSt27__throw_bad_optional_accessv', 'std::bad_optional_access')):
+    SUMMARIES[_n] = sum_std_throw(_w)
+def sum_exc_ctor2(ex, args, st):
+    # BSplineException(ErrorCode, std::string): message formatting stubbed; record the code
+    st.exc_code[z3.simplify(args[0]).as_long()] = z3.simplify(args[1]); yield Outcome('ret', None, st)
+SUMMARIES['@_ZN7bspline10exceptions16BSplineExceptionC2ENS0_9ErrorCodeENSt7__cxx1112basic_stringIcSt11char_traitsIcESaIcEEE'] = sum_exc_ctor2
+def sum_strlen(ex, args, st):
+    n = 0
+    while True:
+        (st, b), = ex.load(st, args[0] + bv(n), 1); b = z3.simplify(b)
+        if not z3.is_bv_value(b): raise EngineError('strlen over symbolic bytes')
+        if b.as_long() == 0: break
+        n += 1
+        if n > 4096: raise EngineError('strlen: unterminated')
+    yield Outcome('ret', bv(n), st)
+SUMMARIES['@strlen'] = sum_strlen
